@@ -54,21 +54,26 @@
      store level).  C11_all_step / _history / _reread / _start are the single-step, history, re-read
      and embedding theorems of that development; C11_all_handles_* lift the handle theorems of
      section 1d to it (model/RelHandlesAll.v, proofs/RelHandlesAllP.v).
+   * The same with operands obtained by PARSING (section 1f, model/RelLiveAllParsed.v,
+     proofs/RelEditParsedAllP.v + RelLiveAllParsedP.v + RelEditSubXP.v): Entry::from_str /
+     Relation::from_str of ANY text they accept (C11_all_parsed_cover_entry, _relation) whose accessors do not panic,
+     mixed with built operands: C11_all_mixed_step / _history / _full; and in the handle theorems
+     (C11_all_handles_*: a register may hold a handle INTO a parsed tree, RelHandlesAll.EParsed /
+     RParsed; Relations::replace and Entry::replace move the node out of that tree).
    * Sections 1, 1b, 1c, 1d (earlier): the same for constructor-built fields with the canonical tree
      spelled out, for Policy-shaped fields (RelGrammar.wf_rfield) with contents stated through C10's
      racc, for operands obtained by PARSING (Entry::from_str / Relation::from_str), and for handles
      obtained at any earlier time.  Sections 2-4: canonical shapes, frame lemmas on ANY children
      list, the store-level effect of Entry::remove.  Sections 5, 6: for every defect of the code
      before this cone's fixes a `_refuted` theorem.
-   * What is NOT proved (covered by the rel-edit stream and its oracle on every run): operands
-     obtained by parsing are proved for Policy-shaped fields only (section 1c), not yet in the liberal
-     development; in the handle theorems (1d, 1e): operations issued through a handle into an operand
-     not yet handed over, or through a handle whose node has left the field. *)
+   * What is NOT proved (covered by the rel-edit stream and its oracle on every run): in the handle
+     theorems (1d, 1e): operations issued through a handle into an operand not yet handed over, or
+     through a handle whose node has left the field. *)
 From V.model Require Import Base RelLex RelParse RelAcc RelGrammar RelEdit RelEditSpec RelEditTree RelLive RelHandles.
-From V.model Require RelLiveAll RelHandlesAll.
+From V.model Require RelGrammarAll RelLiveAll RelLiveAllParsed RelHandlesAll.
 From V.proofs Require Import BaseP RelEditP RelEditStP RelEditHistP RelEditReparseP RelEditFullP RelEditRefuteP.
 From V.proofs Require Import RelEditTreeP RelEditReplaceP RelEditParsedP RelLiveP RelLiveStepP RelLiveWfP RelLiveNormP RelLiveHistP RelLiveParsedP RelHandlesP RelEditBuildP.
-From V.proofs Require RelLiveAllStepP RelLiveAllHistP RelHandlesAllP.
+From V.proofs Require RelLiveAllStepP RelLiveAllHistP RelHandlesAllP RelEditParsedAllP RelLiveAllParsedP.
 
 (* the whole property is RelEditSpec.C11_full, a statement about a variant of the code; it is proved
    for the code as it is in /repo: C11_full_theorem (section 1e) *)
@@ -667,54 +672,54 @@ Check C11_all_machine_step : forall o T T' st,
   exists st', run_ops fixed (compile o) st = Ok st' /\ holds st' T'.
 Print Assumptions C11_all_machine_step.
 
-(* handles obtained at ANY earlier time, on liberal layouts and with operands built by Relation::new or RelationBuilder (model/RelHandlesAll.v, the mirror of RelHandles.v: the content is a list of relrec records, the list model is astep): one operation through whatever registers it names *)
+(* handles obtained at ANY earlier time, on liberal layouts, with operands built by Relation::new or RelationBuilder OR obtained by parsing any text Entry::from_str / Relation::from_str accept (model/RelHandlesAll.v, the mirror of RelHandles.v: the content is a list of relrec records, the list model is astep; a step of the trace is marked HB = operand built, it has to satisfy wf_operands, or HP = operand parsed, nothing more is asked): one operation through whatever registers it names *)
 Theorem C11_all_handles_step : forall b sv st a o a' tr,
-  RelHandlesAllP.Rel b sv st a -> RelHandlesAll.h_op o a = Some (a', tr) -> forallb RelLiveAll.operands_ok tr = true ->
+  RelHandlesAllP.Rel b sv st a -> RelHandlesAll.h_op o a = Some (a', tr) -> forallb RelHandlesAll.hoperands_ok tr = true ->
   exists out st', run_op fixed o st = Ok (out, st') /\ RelHandlesAllP.Rel b sv st' a'.
 Proof. exact RelHandlesAllP.handles_step. Qed.
 Check C11_all_handles_step : forall b sv st a o a' tr,
-  RelHandlesAllP.Rel b sv st a -> RelHandlesAll.h_op o a = Some (a', tr) -> forallb RelLiveAll.operands_ok tr = true ->
+  RelHandlesAllP.Rel b sv st a -> RelHandlesAll.h_op o a = Some (a', tr) -> forallb RelHandlesAll.hoperands_ok tr = true ->
   exists out st', run_op fixed o st = Ok (out, st') /\ RelHandlesAllP.Rel b sv st' a'.
 Print Assumptions C11_all_handles_step.
 
 (* programs *)
 Theorem C11_all_handles_history : forall b sv ops st a a' tr,
-  RelHandlesAllP.Rel b sv st a -> RelHandlesAll.h_ops ops a = Some (a', tr) -> forallb RelLiveAll.operands_ok tr = true ->
+  RelHandlesAllP.Rel b sv st a -> RelHandlesAll.h_ops ops a = Some (a', tr) -> forallb RelHandlesAll.hoperands_ok tr = true ->
   exists st', run_ops fixed ops st = Ok st' /\ RelHandlesAllP.Rel b sv st' a'.
 Proof. exact RelHandlesAllP.handles_history. Qed.
 Check C11_all_handles_history : forall b sv ops st a a' tr,
-  RelHandlesAllP.Rel b sv st a -> RelHandlesAll.h_ops ops a = Some (a', tr) -> forallb RelLiveAll.operands_ok tr = true ->
+  RelHandlesAllP.Rel b sv st a -> RelHandlesAll.h_ops ops a = Some (a', tr) -> forallb RelHandlesAll.hoperands_ok tr = true ->
   exists st', run_ops fixed ops st = Ok st' /\ RelHandlesAllP.Rel b sv st' a'.
 Print Assumptions C11_all_handles_history.
 
-(* from ANY text read without error (accessors not panicking), ANY in-scope program of the eighteen operations through ANY registers: no panic; every register denotes what the abstract reading says (Rel); the root's structure is the list model's history folded over the structure of the text, substitution variables unchanged; the printed text is read again without error to that same structure *)
+(* from ANY text read without error (accessors not panicking), ANY in-scope program of the eighteen operations through ANY registers, operands built or parsed: no panic; every register denotes what the abstract reading says (Rel); the root's structure is the list model's history folded over the structure of the text, substitution variables unchanged; the printed text is read again without error to that same structure *)
 Theorem C11_all_handles_history_text : forall b s t0 f0 st ops a' tr,
   parse_relaxed s b = Ok (t0, 0) -> structure t0 = Ok f0 -> holds st t0 ->
   RelHandlesAll.h_ops ops (RelHandlesAll.mk_hstate f0 (RelHandlesAllP.h_of st)) = Some (a', tr) ->
-  forallb RelLiveAll.operands_ok tr = true ->
+  forallb RelHandlesAll.hoperands_ok tr = true ->
   exists st' l',
     run_ops fixed ops st = Ok st' /\
     RelHandlesAllP.Rel b (substvar_texts t0) st' a' /\
-    RelHandlesAll.h_f a' = fold_left astep tr f0 /\
+    RelHandlesAll.h_f a' = fold_left RelHandlesAll.hxstep tr f0 /\
     root_tree st' = Ok (RelLiveAll.ltree l') /\ root_text st' = Ok (text (RelLiveAll.ltree l')) /\
-    structure (RelLiveAll.ltree l') = Ok (fold_left astep tr f0) /\
+    structure (RelLiveAll.ltree l') = Ok (fold_left RelHandlesAll.hxstep tr f0) /\
     substvar_texts (RelLiveAll.ltree l') = substvar_texts t0 /\
     exists t'', parse_relaxed (text (RelLiveAll.ltree l')) b = Ok (t'', 0) /\ text t'' = text (RelLiveAll.ltree l') /\
-                structure t'' = Ok (fold_left astep tr f0) /\ substvar_texts t'' = substvar_texts t0.
+                structure t'' = Ok (fold_left RelHandlesAll.hxstep tr f0) /\ substvar_texts t'' = substvar_texts t0.
 Proof. exact RelHandlesAllP.handles_history_text. Qed.
 Check C11_all_handles_history_text : forall b s t0 f0 st ops a' tr,
   parse_relaxed s b = Ok (t0, 0) -> structure t0 = Ok f0 -> holds st t0 ->
   RelHandlesAll.h_ops ops (RelHandlesAll.mk_hstate f0 (RelHandlesAllP.h_of st)) = Some (a', tr) ->
-  forallb RelLiveAll.operands_ok tr = true ->
+  forallb RelHandlesAll.hoperands_ok tr = true ->
   exists st' l',
     run_ops fixed ops st = Ok st' /\
     RelHandlesAllP.Rel b (substvar_texts t0) st' a' /\
-    RelHandlesAll.h_f a' = fold_left astep tr f0 /\
+    RelHandlesAll.h_f a' = fold_left RelHandlesAll.hxstep tr f0 /\
     root_tree st' = Ok (RelLiveAll.ltree l') /\ root_text st' = Ok (text (RelLiveAll.ltree l')) /\
-    structure (RelLiveAll.ltree l') = Ok (fold_left astep tr f0) /\
+    structure (RelLiveAll.ltree l') = Ok (fold_left RelHandlesAll.hxstep tr f0) /\
     substvar_texts (RelLiveAll.ltree l') = substvar_texts t0 /\
     exists t'', parse_relaxed (text (RelLiveAll.ltree l')) b = Ok (t'', 0) /\ text t'' = text (RelLiveAll.ltree l') /\
-                structure t'' = Ok (fold_left astep tr f0) /\ substvar_texts t'' = substvar_texts t0.
+                structure t'' = Ok (fold_left RelHandlesAll.hxstep tr f0) /\ substvar_texts t'' = substvar_texts t0.
 Print Assumptions C11_all_handles_history_text.
 
 (* an Entry handle that denotes entry i shows the i-th entry of the field as it is now *)
@@ -766,6 +771,143 @@ Check C11_builder_operand_witness :
   run_text fixed INew [ONewEntry 1 (ESFromVec [RSNew [97]%N None]); OPush 1] = Ok [97]%N /\
   run_text fixed INew (compile (APush [(mk_relrec [97]%N None None (Some [[97; 109; 100; 54; 52]%N]) [])])) = Ok [97; 32; 91; 97; 109; 100; 54; 52; 93]%N.
 Print Assumptions C11_builder_operand_witness.
+
+(* 1f. Operands obtained by PARSING, in the liberal development (model/RelLiveAllParsed.v): the text
+   is ANY text Entry::from_str / Relation::from_str accept — read strictly without error, exactly
+   one entry (with exactly one relation): white space, empty items, the entry, empty items
+   (C11_all_parsed_cover_*: these are all of them) — whose accessors do not panic (arel_readable;
+   C11_all_parsed_read_*: exactly then).  The operand handle points INTO the parsed tree.  [gop] =
+   an operation with operands built (GA) or parsed (GP).  The handle theorems of 1e cover them too
+   (RelHandlesAll.EParsed / RParsed; C11_all_handles_parsed_*: what h_op accepts as parsed operand
+   is exactly these texts). *)
+(* the store level on ANY tree: parse the operand, obtain the handle into the parsed tree, run the operation = the tree function tt_op with the operand's node *)
+Theorem C11_all_parsed_machine_step : forall o T T' st,
+  RelEditParsedAllP.popen_ok o = true -> is_node T = true -> RelEditParsedAllP.preplace_ready o T -> holds st T ->
+  tt_op (RelLiveAllParsed.ptop o) T = Ok T' ->
+  exists st', run_ops fixed (RelLiveAllParsed.pcompile o) st = Ok st' /\ holds st' T'.
+Proof. exact RelEditParsedAllP.pop_step_tree. Qed.
+Check C11_all_parsed_machine_step : forall o T T' st,
+  RelEditParsedAllP.popen_ok o = true -> is_node T = true -> RelEditParsedAllP.preplace_ready o T -> holds st T ->
+  tt_op (RelLiveAllParsed.ptop o) T = Ok T' ->
+  exists st', run_ops fixed (RelLiveAllParsed.pcompile o) st = Ok st' /\ holds st' T'.
+Print Assumptions C11_all_parsed_machine_step.
+
+(* (1) one operation with either kind of operand on ANY well-formed liberal layout *)
+Theorem C11_all_mixed_step : forall b o l st, RelLiveAll.lwf b l = true -> RelLiveAllParsed.goperands_ok o = true ->
+  RelLiveAllParsed.g_in_range (fst (RelLiveAll.lcontent l)) o = true -> holds st (RelLiveAll.ltree l) ->
+  exists l' st', RelLiveAllParsed.g_op o l = Some l' /\
+                 run_ops fixed (RelLiveAllParsed.gcompile o) st = Ok st' /\ holds st' (RelLiveAll.ltree l') /\
+                 RelLiveAll.lwf b l' = true /\
+                 RelLiveAll.lcontent l' = (RelLiveAllParsed.gxstep (fst (RelLiveAll.lcontent l)) o, snd (RelLiveAll.lcontent l)).
+Proof. exact RelLiveAllParsedP.g_step. Qed.
+Check C11_all_mixed_step : forall b o l st, RelLiveAll.lwf b l = true -> RelLiveAllParsed.goperands_ok o = true ->
+  RelLiveAllParsed.g_in_range (fst (RelLiveAll.lcontent l)) o = true -> holds st (RelLiveAll.ltree l) ->
+  exists l' st', RelLiveAllParsed.g_op o l = Some l' /\
+                 run_ops fixed (RelLiveAllParsed.gcompile o) st = Ok st' /\ holds st' (RelLiveAll.ltree l') /\
+                 RelLiveAll.lwf b l' = true /\
+                 RelLiveAll.lcontent l' = (RelLiveAllParsed.gxstep (fst (RelLiveAll.lcontent l)) o, snd (RelLiveAll.lcontent l)).
+Print Assumptions C11_all_mixed_step.
+
+(* (2) histories mixing built and parsed operands *)
+Theorem C11_all_mixed_history : forall b ops l st, RelLiveAll.lwf b l = true -> forallb RelLiveAllParsed.goperands_ok ops = true ->
+  RelLiveAllParsed.gsteps_in_range (fst (RelLiveAll.lcontent l)) ops = true -> holds st (RelLiveAll.ltree l) ->
+  exists l' st', RelLiveAllParsed.g_ops ops l = Some l' /\
+                 run_ops fixed (RelLiveAllParsed.gcompile_all ops) st = Ok st' /\ holds st' (RelLiveAll.ltree l') /\
+                 RelLiveAll.lwf b l' = true /\
+                 RelLiveAll.lcontent l' = (fold_left RelLiveAllParsed.gxstep ops (fst (RelLiveAll.lcontent l)), snd (RelLiveAll.lcontent l)).
+Proof. exact RelLiveAllParsedP.g_history. Qed.
+Check C11_all_mixed_history : forall b ops l st, RelLiveAll.lwf b l = true -> forallb RelLiveAllParsed.goperands_ok ops = true ->
+  RelLiveAllParsed.gsteps_in_range (fst (RelLiveAll.lcontent l)) ops = true -> holds st (RelLiveAll.ltree l) ->
+  exists l' st', RelLiveAllParsed.g_ops ops l = Some l' /\
+                 run_ops fixed (RelLiveAllParsed.gcompile_all ops) st = Ok st' /\ holds st' (RelLiveAll.ltree l') /\
+                 RelLiveAll.lwf b l' = true /\
+                 RelLiveAll.lcontent l' = (fold_left RelLiveAllParsed.gxstep ops (fst (RelLiveAll.lcontent l)), snd (RelLiveAll.lcontent l)).
+Print Assumptions C11_all_mixed_history.
+
+(* C11_full with operands of either kind: from any text read without error (accessors not panicking), every in-range history whose operands are well-formed records (built) or accepted, readable texts (parsed) runs without panic, leaves exactly the list model's field in the root, keeps the substitution variables, and prints a text that is read again without error to that field *)
+Theorem C11_all_mixed_full : forall (s : str) (t0 : rtree) (f0 : lfield) (ops : list RelLiveAllParsed.gop),
+  parse_relaxed s true = Ok (t0, 0) -> structure t0 = Ok f0 ->
+  RelLiveAllParsed.gsteps_in_range f0 ops = true -> forallb RelLiveAllParsed.goperands_ok ops = true ->
+  exists st', run_ops fixed (RelLiveAllParsed.gcompile_all ops) (start_state t0) = Ok st' /\
+  exists t', root_tree st' = Ok t' /\
+    structure t' = Ok (fold_left RelLiveAllParsed.gxstep ops f0) /\
+    substvar_texts t' = substvar_texts t0 /\
+    exists t'', parse_relaxed (text t') true = Ok (t'', 0) /\
+                structure t'' = Ok (fold_left RelLiveAllParsed.gxstep ops f0).
+Proof. exact RelLiveAllParsedP.g_history_full. Qed.
+Check C11_all_mixed_full : forall (s : str) (t0 : rtree) (f0 : lfield) (ops : list RelLiveAllParsed.gop),
+  parse_relaxed s true = Ok (t0, 0) -> structure t0 = Ok f0 ->
+  RelLiveAllParsed.gsteps_in_range f0 ops = true -> forallb RelLiveAllParsed.goperands_ok ops = true ->
+  exists st', run_ops fixed (RelLiveAllParsed.gcompile_all ops) (start_state t0) = Ok st' /\
+  exists t', root_tree st' = Ok t' /\
+    structure t' = Ok (fold_left RelLiveAllParsed.gxstep ops f0) /\
+    substvar_texts t' = substvar_texts t0 /\
+    exists t'', parse_relaxed (text t') true = Ok (t'', 0) /\
+                structure t'' = Ok (fold_left RelLiveAllParsed.gxstep ops f0).
+Print Assumptions C11_all_mixed_full.
+
+(* every text Entry::from_str accepts (the conditions of RelEdit.entry_parse) is one of the operand texts *)
+Theorem C11_all_parsed_cover_entry : forall s t k, relations_from_str s = Ok t ->
+  nth_index is_entry 0 (children t) = Some k -> nth_index is_entry 1 (children t) = None ->
+  exists x r alts, s = RelLiveAllParsed.ptext_text x r alts /\ RelGrammarAll.awf false (RelLiveAllParsed.ptext_field x r alts) = true /\
+                   t = RelGrammarAll.atree_of (RelLiveAllParsed.ptext_field x r alts) /\
+                   k = RelLiveAllParsed.entry_at (RelLiveAllParsed.p_lead x) (RelLiveAllParsed.p_pre x).
+Proof. exact RelLiveAllParsedP.entry_text_cover. Qed.
+Check C11_all_parsed_cover_entry : forall s t k, relations_from_str s = Ok t ->
+  nth_index is_entry 0 (children t) = Some k -> nth_index is_entry 1 (children t) = None ->
+  exists x r alts, s = RelLiveAllParsed.ptext_text x r alts /\ RelGrammarAll.awf false (RelLiveAllParsed.ptext_field x r alts) = true /\
+                   t = RelGrammarAll.atree_of (RelLiveAllParsed.ptext_field x r alts) /\
+                   k = RelLiveAllParsed.entry_at (RelLiveAllParsed.p_lead x) (RelLiveAllParsed.p_pre x).
+Print Assumptions C11_all_parsed_cover_entry.
+
+(* and every text Relation::from_str accepts (RelEdit.relation_parse) *)
+Theorem C11_all_parsed_cover_relation : forall s t k e, relations_from_str s = Ok t ->
+  nth_index is_entry 0 (children t) = Some k -> nth_index is_entry 1 (children t) = None ->
+  nth_error (children t) k = Some e -> nth_index is_relation 1 (children e) = None ->
+  exists x r, s = RelLiveAllParsed.ptext_text x r [] /\ RelGrammarAll.awf false (RelLiveAllParsed.ptext_field x r []) = true /\
+              t = RelGrammarAll.atree_of (RelLiveAllParsed.ptext_field x r []) /\
+              k = RelLiveAllParsed.entry_at (RelLiveAllParsed.p_lead x) (RelLiveAllParsed.p_pre x) /\
+              nth_index is_relation 0 (children e) = Some 0.
+Proof. exact RelLiveAllParsedP.relation_text_cover. Qed.
+Check C11_all_parsed_cover_relation : forall s t k e, relations_from_str s = Ok t ->
+  nth_index is_entry 0 (children t) = Some k -> nth_index is_entry 1 (children t) = None ->
+  nth_error (children t) k = Some e -> nth_index is_relation 1 (children e) = None ->
+  exists x r, s = RelLiveAllParsed.ptext_text x r [] /\ RelGrammarAll.awf false (RelLiveAllParsed.ptext_field x r []) = true /\
+              t = RelGrammarAll.atree_of (RelLiveAllParsed.ptext_field x r []) /\
+              k = RelLiveAllParsed.entry_at (RelLiveAllParsed.p_lead x) (RelLiveAllParsed.p_pre x) /\
+              nth_index is_relation 0 (children e) = Some 0.
+Print Assumptions C11_all_parsed_cover_relation.
+
+(* the second condition on a parsed operand (arel_readable: every version operator is one of the five) is exactly `the accessors do not panic on it`; otherwise the field would have no list-model reading afterwards (as C11_full_domain_witness) *)
+Theorem C11_all_parsed_read_entry : forall x r alts, RelGrammarAll.awf false (RelLiveAllParsed.ptext_field x r alts) = true ->
+  mapM relrec_of (relations (Node ENTRY (RelGrammarAll.arels_elems r alts (RelLiveAllParsed.p_last x)))) =
+  if RelLiveAllParsed.arel_readable r && forallb (fun wr => RelLiveAllParsed.arel_readable (snd wr)) alts
+  then Ok (RelLiveAllParsed.entry_content r alts) else Panic 51%N.
+Proof. exact RelLiveAllParsedP.ptext_entry_read. Qed.
+Check C11_all_parsed_read_entry : forall x r alts, RelGrammarAll.awf false (RelLiveAllParsed.ptext_field x r alts) = true ->
+  mapM relrec_of (relations (Node ENTRY (RelGrammarAll.arels_elems r alts (RelLiveAllParsed.p_last x)))) =
+  if RelLiveAllParsed.arel_readable r && forallb (fun wr => RelLiveAllParsed.arel_readable (snd wr)) alts
+  then Ok (RelLiveAllParsed.entry_content r alts) else Panic 51%N.
+Print Assumptions C11_all_parsed_read_entry.
+
+(* what the handle-level reading accepts as a parsed operand (from_str succeeds, the accessors read it) is an operand text of this section with that content *)
+Theorem C11_all_handles_parsed_entry : forall s e, RelHandlesAll.parsed_entry s = Some e ->
+  exists x r alts, s = RelLiveAllParsed.ptext_text x r alts /\ RelLiveAllParsed.poperands_ok (RelLiveAllParsed.PPush x r alts) = true /\
+                   e = RelLiveAllParsed.entry_content r alts.
+Proof. exact RelHandlesAllP.parsed_entry_inv. Qed.
+Check C11_all_handles_parsed_entry : forall s e, RelHandlesAll.parsed_entry s = Some e ->
+  exists x r alts, s = RelLiveAllParsed.ptext_text x r alts /\ RelLiveAllParsed.poperands_ok (RelLiveAllParsed.PPush x r alts) = true /\
+                   e = RelLiveAllParsed.entry_content r alts.
+Print Assumptions C11_all_handles_parsed_entry.
+
+Theorem C11_all_handles_parsed_relation : forall s r0, RelHandlesAll.parsed_relation s = Some r0 ->
+  exists x r, s = RelLiveAllParsed.ptext_text x r [] /\ RelLiveAllParsed.poperands_ok (RelLiveAllParsed.PEPush 0 x r) = true /\
+              r0 = RelLiveAllParsed.arel_content r.
+Proof. exact RelHandlesAllP.parsed_relation_inv. Qed.
+Check C11_all_handles_parsed_relation : forall s r0, RelHandlesAll.parsed_relation s = Some r0 ->
+  exists x r, s = RelLiveAllParsed.ptext_text x r [] /\ RelLiveAllParsed.poperands_ok (RelLiveAllParsed.PEPush 0 x r) = true /\
+              r0 = RelLiveAllParsed.arel_content r.
+Print Assumptions C11_all_handles_parsed_relation.
 
 (* 2. Constructor-built fields read back as the list they were built from, and print canonically *)
 Theorem C11_structure_constructed : forall f, plain_field f = true -> structure (cfield_tree f) = Ok f.
@@ -1109,4 +1251,36 @@ Example C11_full_ex :
   run_text fixed (IRelaxed s0) (compile_all ops) = Ok s1 /\
   fold_left astep ops f0 = [[mk_relrec [97]%N (Some [98]%N) (Some (VGe, [50]%N)) (Some [[33; 120]%N]) [[PEnabled [97]%N; PDisabled [98]%N; PDisabled []%N; PEnabled [99]%N]; []; [PEnabled [114]%N]]; mk_relrec [110]%N (Some [97; 110; 121]%N) None (Some [[97; 109; 100; 54; 52]%N]) [[PEnabled [112]%N; PDisabled [113]%N]]]; [mk_relrec [119]%N (Some [110; 97; 116; 105; 118; 101]%N) None None [[PDisabled [115]%N]]]] /\
   sfield s1 = Ok (fold_left astep ops f0).
+Proof. vm_compute. repeat split; reflexivity. Qed.
+
+(* Non-vacuity of the handle theorems with parsed operands (and of section 1f): the text of
+   C11_full_ex; a handle to its entry is taken FIRST; then Entry::from_str(" , x (= 5::) | y ,") is
+   inserted in front; through the old handle Relation::from_str(",,\n w:any [!i386] <!p> ") is pushed and
+   the alternative z replaced by Relation::from_str(" q (<< 1) , "); the entry in front is replaced by
+   Entry::from_str("m | n"); a built entry k is pushed.  The abstract reading gives the list model's
+   field, four steps with parsed operands and one with a built one, and the old handle now denotes
+   entry 1; the machine prints
+     "\r m | n, a:b(= 5::)[!! x !]<a !b ! c><>|q (<< 1) | w:any [!i386] <!p> , ${::a:},, k"
+   which is read again without error to exactly that field. *)
+Example C11_all_handles_parsed_ex :
+  let sfield s := match parse_relaxed s true with Ok (t, 0) => structure t | _ => Err 1%N end in
+  let s0 := [13; 32; 97; 58; 98; 40; 61; 32; 53; 58; 58; 41; 91; 33; 33; 32; 120; 32; 33; 93; 60; 97; 32; 33; 98; 32; 33; 32; 99; 62; 60; 62; 124; 122; 32; 44; 32; 36; 123; 58; 58; 97; 58; 125; 44; 44]%N in
+  let f0 := [[mk_relrec [97]%N (Some [98]%N) (Some (VEq, [53; 58; 58]%N)) (Some [[33; 120]%N]) [[PEnabled [97]%N; PDisabled [98]%N; PDisabled []%N; PEnabled [99]%N]; []]; mk_relrec [122]%N None None None []]] in
+  let ops := [OGetEntry 0 0;
+              ONewEntry 1 (ESParse [32; 44; 32; 120; 32; 40; 61; 32; 53; 58; 58; 41; 32; 124; 32; 121; 32; 44]%N); OInsert 0 1;
+              ONewRel 1 (RSParse [44; 44; 10; 32; 119; 58; 97; 110; 121; 32; 91; 33; 105; 51; 56; 54; 93; 32; 60; 33; 112; 62; 32]%N); OEPush 0 1;
+              ONewRel 2 (RSParse [32; 113; 32; 40; 60; 60; 32; 49; 41; 32; 44; 32]%N); OEReplace 0 1 2;
+              ONewEntry 2 (ESParse [109; 32; 124; 32; 110]%N); OReplace 0 2;
+              ONewEntry 3 (entry_spec [mk_relrec [107]%N None None None []]); OPush 3] in
+  let f1 := [[mk_relrec [109]%N None None None []; mk_relrec [110]%N None None None []]; [mk_relrec [97]%N (Some [98]%N) (Some (VEq, [53; 58; 58]%N)) (Some [[33; 120]%N]) [[PEnabled [97]%N; PDisabled [98]%N; PDisabled []%N; PEnabled [99]%N]; []]; mk_relrec [113]%N None (Some (VLt, [49]%N)) None []; mk_relrec [119]%N (Some [97; 110; 121]%N) None (Some [[33; 105; 51; 56; 54]%N]) [[PDisabled [112]%N]]]; [mk_relrec [107]%N None None None []]] in
+  let s1 := [13; 32; 109; 32; 124; 32; 110; 44; 32; 97; 58; 98; 40; 61; 32; 53; 58; 58; 41; 91; 33; 33; 32; 120; 32; 33; 93; 60; 97; 32; 33; 98; 32; 33; 32; 99; 62; 60; 62; 124; 113; 32; 40; 60; 60; 32; 49; 41; 32; 124; 32; 119; 58; 97; 110; 121; 32; 91; 33; 105; 51; 56; 54; 93; 32; 60; 33; 112; 62; 32; 44; 32; 36; 123; 58; 58; 97; 58; 125; 44; 44; 32; 107]%N in
+  sfield s0 = Ok f0 /\
+  option_map (fun p => (RelHandlesAll.h_f (fst p), RelHandlesAll.h_reg (fst p) (ereg 0),
+                        map (fun s => match s with RelHandlesAll.HB _ => false | RelHandlesAll.HP _ => true end) (snd p),
+                        forallb RelHandlesAll.hoperands_ok (snd p),
+                        fold_left RelHandlesAll.hxstep (snd p) f0))
+             (RelHandlesAll.h_ops ops (RelHandlesAll.h_start f0))
+  = Some (f1, Some (RelHandlesAll.ELive 1), [true; true; true; true; false], true, f1) /\
+  run_text fixed (IRelaxed s0) ops = Ok s1 /\
+  sfield s1 = Ok f1.
 Proof. vm_compute. repeat split; reflexivity. Qed.
